@@ -1054,6 +1054,24 @@ pub mod vh1 {
         }
     }
 
+    /// `http1_codec::encode_response` / `encode_request` on heads given as plain data (`None`: the `http`
+    /// crate refuses a name or a value)
+    pub fn encode_response_bytes(status: u16, headers: &[(String, Vec<u8>)]) -> Option<Vec<u8>> {
+        let mut b = http::Response::builder().status(status).version(http::Version::HTTP_11);
+        for (n, v) in headers {
+            b = b.header(n.as_str(), http::HeaderValue::from_bytes(v).ok()?);
+        }
+        Some(http1_codec::encode_response(b.body(()).ok()?.into_parts().0).to_vec())
+    }
+
+    pub fn encode_request_bytes(method: &str, uri: &str, headers: &[(String, Vec<u8>)]) -> Option<Vec<u8>> {
+        let mut b = http::Request::builder().method(method).uri(uri).version(http::Version::HTTP_11);
+        for (n, v) in headers {
+            b = b.header(n.as_str(), http::HeaderValue::from_bytes(v).ok()?);
+        }
+        Some(http1_codec::encode_request(&b.body(()).ok()?.into_parts().0).to_vec())
+    }
+
     /// Feed `chunks` (one transport write each, yielding in between; then EOF) to a fresh
     /// `Http1Codec`, answer the first request with `200` (when `respond`) and `download`
     /// bytes, and drain the upload side.
